@@ -3,7 +3,9 @@
 A case is JSON-able:
   {'mods': [spec, ...],           static modules in declaration order
    'dyn':  [spec, ...],           modules that only exist as the product of a Pinata's scanModules
-   'sched': None | [choices]}     schedule prefix for vlib.sched (None: never preempt)
+   'sched': None | [choices],     schedule prefix for vlib.sched (None: never preempt)
+   'rounds': n,                   optional: turns of the loop of Server.run on the same Server object (restart), default 1
+   'share': bool}                 optional: equal parameter dictionaries of the configuration are ONE Param object
   spec = {'name', 'cls': 'L'|'IO'|'HIO'|'PIN', 'export': bool, 'poll': bool,
           'params': [[pname, has_write, cls_default, cls_value, cfg_default, cfg_value(, needscfg, bad)]],   parameters of the class, in the order of
                     its accessibles: is there a write_<pname> method, Parameter(default=, value=) of the declaration and
@@ -41,7 +43,7 @@ WRITE_NAMES = ['w0', 'w1', 'w2']
 FAULT_CLASSES = ['HardwareError', 'CommunicationFailedError', 'SilentCommunicationFailedError', 'RuntimeError', 'ValueError']
 TIMEOUT = 30           # Server._processCfg: MultiEvent(default_timeout=30)
 
-_state = types.SimpleNamespace(log=None, specs=None, sched=None, seen_poll=None)
+_state = types.SimpleNamespace(log=None, specs=None, sched=None, seen_poll=None, written=None, unready=None)
 _classes = {}
 AUTO_SPEC = {'te': [], 'ti': [], 'fe': False, 'fi': False, 'delay': 0}      # automatically created communicators
 
@@ -55,6 +57,9 @@ def _touch(self, names):
         mod = getattr(self, a)
         if mod is not None:
             _ev('get', self.name, a, mod.name)
+            # the state of the module object the user is handed, at this very moment (not what the log says about it)
+            if not (mod.earlyInitDone and mod.initModuleDone and mod._isinitialized):   # noqa: protected access = observation
+                _state.unready.append([self.name, a, mod.name])
 
 
 class Instr:
@@ -348,17 +353,27 @@ def run_case(case, policy=None, max_steps=200000):
     generalConfig.testinit()
     frappy.io.HasIO.ioDict.clear()        # O02: class-level dictionary shared by every node of the process
     specs = {sp['name']: sp for sp in case['mods'] + case.get('dyn', [])}
-    log = []
-    _state.log, _state.specs, _state.seen_poll, _state.shutdown_seen = log, specs, set(), False
-    _state.written = []
+    _state.specs = specs
     if policy is None:
         policy = vsched.ReplayThenDefault(case.get('sched') or [])
     s = vsched.Scheduler(policy=policy, max_steps=max_steps)
     _state.sched = s
-    out = {'log': log, 'errors': [], 'modules': [], 'edges': [], 'exit': None, 'crash': None, 'threads': [],
-           'waited': None, 'timedout': [], 'metrace': [], 'written': _state.written}
-    MultiEvent = sched_multievent(s, out['metrace'])
+    nrounds = max(1, int(case.get('rounds') or 1))
+    outs = []
+    out = None
+    metrace = []               # of all rounds; every round keeps its part
+    MultiEvent = sched_multievent(s, metrace)
     handles = {}
+
+    def begin_round():
+        nonlocal out
+        out = {'log': [], 'errors': [], 'modules': [], 'edges': [], 'exit': None, 'crash': None, 'threads': [],
+               'waited': None, 'timedout': [], 'metrace': [], 'written': [], 'unready': [], 'ioDict': [],
+               'round': len(outs), 'me0': len(metrace)}
+        outs.append(out)
+        _state.log, _state.seen_poll, _state.shutdown_seen = out['log'], set(), False
+        _state.written, _state.unready = out['written'], out['unready']
+        handles.clear()
 
     def mkthread(func, *args, **kwds):
         # the poll threads that really exist, by the module that owns them
@@ -369,7 +384,7 @@ def run_case(case, policy=None, max_steps=200000):
     class LoggedMultiEvent(MultiEvent):
         def get_trigger(self, timeout=None, name=None):
             tname = (name or self.name or '').replace('module ', '')
-            out['metrace'].append(['main', 'register', tname])
+            metrace.append(['main', 'register', tname])
             trig = super().get_trigger(timeout, name)
             _ev('thread', tname)
             out['threads'].append(tname)
@@ -377,53 +392,81 @@ def run_case(case, policy=None, max_steps=200000):
             def fire():
                 _ev('rounddone', tname)
                 t = s.me()
-                out['metrace'].append([t.name if t is not None else 'main', 'fire', tname])
+                metrace.append([t.name if t is not None else 'main', 'fire', tname])
                 trig()
             return fire
 
         def wait(self, timeout=None):
             t0 = s.now
-            out['metrace'].append(['main', 'wait', bool(self.events)])
+            metrace.append(['main', 'wait', bool(self.events)])
             ok = super().wait(timeout)
-            out['metrace'].append(['main', 'waitdone', bool(ok)])
+            metrace.append(['main', 'waitdone', bool(ok)])
             out['waited'] = round(s.now - t0, 3)
             if not ok:
                 out['timedout'] = sorted(n.replace('module ', '') for n in self.waiting_for())
             return ok
 
+    # the Server object: what Server.__init__ loaded from the configuration files is kept for its whole life - a restart
+    # (second round of Server.run) calls _processCfg again on the SAME object, the same module_cfg, the same Param dicts
+    module_cfg = {sp['name']: cfg_of(sp) for sp in case['mods']}
+    if case.get('share'):
+        # one Param object written once in the configuration file and used for several parameters / modules
+        # (`p = Param(1); Mod('a', ..., w0=p); Mod('b', ..., w0=p)`): equal parameter dictionaries are ONE object
+        pool = {}
+        for mc in module_cfg.values():
+            for k, v in list(mc.items()):
+                if isinstance(v, dict):
+                    mc[k] = pool.setdefault(json.dumps(v, sort_keys=True), v)
     stub = types.SimpleNamespace(
         name='node', log=LoggerStub(), _testonly=False,
         node_cfg={'cls': 'frappy.protocol.dispatcher.Dispatcher', 'description': 'c15'},
-        module_cfg={sp['name']: cfg_of(sp) for sp in case['mods']},
+        module_cfg=module_cfg,
         restart=None, shutdown=None, secnode=None, dispatcher=None)
     fake_sys = types.SimpleNamespace(stderr=_io.StringIO(), exit=sys.exit)
 
+    def one_round():
+        """one turn of the loop of Server.run: _processCfg ... serve ... shutdown_modules; -> a further round is possible"""
+        try:
+            frappy.server.Server._processCfg(stub)
+            for n in out['timedout']:
+                _ev('timeout', n)
+            _ev('ready')
+        except SystemExit as e:
+            out['exit'] = e.code
+            _ev('exit')
+        sn = stub.secnode
+        out['errors'] = error_classes(sn.errors)
+        out['modules'] = list(sn.modules)
+        out['edges'] = sorted([u, m.name] for u, mo in sn.modules.items() for m in mo.attachedModules.values())
+        out['ioDict'] = sorted([k, v] for k, v in frappy.io.HasIO.ioDict.items())
+        if out['exit'] is not None:
+            return False
+        # let every first round finish (virtual time), then shut down as Server.run does
+        total = sum((sp.get('delay') or 0) for sp in specs.values())
+        s.time.sleep(total + 1)
+        _ev('shutdownbegin')
+        sn.shutdown_modules()
+        # which poll threads exist after shutdown_modules returned?  do they still poll?
+        if any(h.is_alive() for h in handles.values()):
+            s.time.sleep(12)
+        stray = False
+        for owner in sn.modules:
+            if owner in handles and handles[owner].is_alive():
+                _ev('alive', owner)
+                stray = True
+        return not stray
+
     def main():
         try:
-            try:
-                frappy.server.Server._processCfg(stub)
-                for n in out['timedout']:
-                    _ev('timeout', n)
-                _ev('ready')
-            except SystemExit as e:
-                out['exit'] = e.code
-                _ev('exit')
-            sn = stub.secnode
-            out['errors'] = error_classes(sn.errors)
-            out['modules'] = list(sn.modules)
-            out['edges'] = sorted([u, m.name] for u, mo in sn.modules.items() for m in mo.attachedModules.values())
-            if out['exit'] is None:
-                # let every first round finish (virtual time), then shut down as Server.run does
-                total = sum((sp.get('delay') or 0) for sp in specs.values())
-                s.time.sleep(total + 1)
-                _ev('shutdownbegin')
-                sn.shutdown_modules()
-                # which poll threads exist after shutdown_modules returned?  do they still poll?
-                if any(h.is_alive() for h in handles.values()):
-                    s.time.sleep(12)
-                for owner in sn.modules:
-                    if owner in handles and handles[owner].is_alive():
-                        _ev('alive', owner)
+            for k in range(nrounds):
+                if k:
+                    begin_round()       # restart: the next turn of the loop of Server.run
+                try:
+                    again = one_round()
+                finally:
+                    out['metrace'] = metrace[out['me0']:]
+                if not again:
+                    break
         except vsched.SchedAbort:
             raise
         except BaseException as e:  # noqa: a crash of the lifecycle is an observation
@@ -434,12 +477,16 @@ def run_case(case, policy=None, max_steps=200000):
     with s.patched(frappy.modulebase, threading=s.threading, time=s.time, mkthread=mkthread), \
             s.patched(frappy.secnode, time=s.time), \
             s.patched(frappy.server, MultiEvent=LoggedMultiEvent, sys=fake_sys):
+        begin_round()
         s.spawn('main', main)
         r = s.run(wall_timeout=20.0)
-    out['sched'] = {'deadlock': r['deadlock'], 'aborted': r['aborted'], 'errors': r['errors'], 'alive': r['alive'],
-                    'steps': r['steps']}
-    out['choices'] = [c for _n, c, _d in s.choices]
-    return out
+    first = outs[0]
+    for o in outs:
+        o['sched'] = {'deadlock': r['deadlock'], 'aborted': r['aborted'], 'errors': r['errors'], 'alive': r['alive'],
+                      'steps': r['steps']}
+    first['choices'] = [c for _n, c, _d in s.choices]
+    first['later'] = outs[1:]
+    return first
 
 
 # =========================================================================================================
@@ -616,6 +663,9 @@ def build_case(rng, n, edges, variant):
             elif mode in ('explicit', 'mixed') and comm is not None:
                 target = comm['name']
             m['atts'].append(['io', target, False, 0])
+            if rng.random() < 0.5:
+                # the module's own earlyInit / initModule uses its communicator (given by name or created from the uri)
+                rng.choice([m['te'], m['ti'], m['ti']]).append('io')
     elif variant == 'pin':
         nd = rng.choice([1, 2])
         names = ['d%d' % i for i in range(nd)]
@@ -673,6 +723,8 @@ def fault_case(rng):
         elif mode == 'uri':
             sp['atts'].append(['io', None, False, 0])
             sp['uri'] = rng.choice(['x://1', 'x://1', 'x://2'])
+        if mode != 'own' and rng.random() < 0.3:
+            sp['ti'].append('io')           # initModule talks to the communicator
         mods.append(faults(sp, p))
     rng.shuffle(mods)
     return {'mods': mods, 'dyn': [], 'sched': None}
@@ -710,6 +762,26 @@ def param_cases(rng):
             yield {'mods': mods, 'dyn': [], 'sched': None}
 
 
+def restart_cases(rng):
+    """restart (`do restart`, Server.restart): further rounds of Server.run on the same Server object and the same loaded
+    configuration.  Clean configurations of every flavour (a rejected node ends the process: there is no next round):
+    start values of every declaration x configuration pattern, shared / automatically created communicators, Pinatas
+    (their products are entries of module_cfg from the second round on), faults in the start-up sequence, slow polls"""
+    for i, c in enumerate(param_cases(rng)):
+        if i % 5 == 0 and i < 288:
+            c['rounds'] = 2
+            yield c
+    for n in (1, 2, 3):
+        for v in ('plain', 'hio', 'hio', 'hio', 'pin', 'pin', 'touchy', 'wfault', 'sfault', 'slow'):
+            c = build_case(rng, n, random_graph(rng, n, True), v)
+            c['rounds'] = rng.choice([2, 2, 3])
+            yield c
+    for _ in range(12):
+        c = fault_case(rng)
+        c['rounds'] = 2
+        yield c
+
+
 # =========================================================================================================
 # observation, model, judge
 # =========================================================================================================
@@ -727,11 +799,17 @@ def canon_log(log):
 
 
 def observe(case, policy=None):
-    """run the real code; -> obs (what is compared / judged), raw"""
-    import frappy.io
+    """run the real code; -> obs (what is compared / judged) of the first round, raw.  The rounds after a restart
+    (`case['rounds']` > 1) are in obs['later'], each with its number in 'round'."""
     raw = run_case(case, policy)
     if raw['sched']['aborted'] not in (None, 'process exit') or raw['sched']['deadlock']:
         raise RuntimeError(f'scheduler: {raw["sched"]}')
+    obs = [_obs_of(r) for r in [raw] + raw['later']]
+    obs[0]['later'] = obs[1:]
+    return obs[0], raw
+
+
+def _obs_of(raw):
     log = []
     for e in raw['log']:
         if e[0] == 'timeout' and (not log or log[-1][0] not in ('timeout', 'deadline')) \
@@ -740,11 +818,14 @@ def observe(case, policy=None):
         log.append(list(e))
     log = canon_log(log)
     shutdown = [e[1] for e in log if e[0] == 'shutdown']
-    obs = {'modules': raw['modules'], 'errors': raw['errors'], 'log': log,
-           'ioDict': sorted([k, v] for k, v in frappy.io.HasIO.ioDict.items()),
-           'edges': raw['edges'], 'exit': raw['exit'], 'crash': raw['crash'], 'thread_errors': raw['sched']['errors'],
-           'shutdown': shutdown, 'metrace': raw['metrace'], 'written': [list(w) for w in raw['written']]}
-    return obs, raw
+    return {'modules': raw['modules'], 'errors': raw['errors'], 'log': log, 'ioDict': raw['ioDict'],
+            'edges': raw['edges'], 'exit': raw['exit'], 'crash': raw['crash'], 'thread_errors': raw['sched']['errors'],
+            'shutdown': shutdown, 'metrace': raw['metrace'], 'written': [list(w) for w in raw['written']],
+            'unready': [list(w) for w in raw['unready']], 'round': raw['round'], 'later': []}
+
+
+def rounds_of(obs):
+    return [obs] + obs['later']
 
 
 def wire_cfg(case):
@@ -752,10 +833,12 @@ def wire_cfg(case):
 
 
 def requests_for(case, obs):
+    """the three requests for ONE round: what the model predicts for round number obs['round'] of a node with this
+    configuration, the judgement of that round against the configuration, the MultiEvent protocol of that round"""
     cfg = wire_cfg(case)
-    return [{'p': 'C15', 'k': 'run', 'cfg': cfg, 'log': obs['log'], 'shutdown': obs['shutdown']},
+    return [{'p': 'C15', 'k': 'run', 'cfg': cfg, 'round': obs['round'], 'log': obs['log'], 'shutdown': obs['shutdown']},
             {'p': 'C15', 'k': 'judge', 'cfg': cfg, 'modules': obs['modules'], 'errors': obs['errors'],
-             'log': obs['log'], 'ioDict': obs['ioDict'], 'written': obs['written']},
+             'log': obs['log'], 'ioDict': obs['ioDict'], 'written': obs['written'], 'unready': obs['unready']},
             {'p': 'C15', 'k': 'me_follow', 'trace': obs['metrace']}]
 
 
@@ -811,6 +894,10 @@ def features(case):
     for i, c in enumerate(case.get('sched') or []):
         if c:
             items.append(('sched', i))
+    if (case.get('rounds') or 1) > 1:
+        items.append(('rounds',))
+    if case.get('share'):
+        items.append(('share',))
     return items
 
 
@@ -845,31 +932,45 @@ def rebuild(case, items):
     sched = case.get('sched') or []
     if sched:
         out['sched'] = [c if ('sched', i) in items else 0 for i, c in enumerate(sched)]
+    if ('rounds',) in items:
+        out['rounds'] = case['rounds']
+    if ('share',) in items:
+        out['share'] = True
     return out
 
 
 def judge_case(ctx, case):
+    """run the case; -> [(obs, model, judge)], one entry per round"""
     obs, _raw = observe(case)
-    ans = ctx.driver.batch(requests_for(case, obs))
-    return obs, ans[0], ans[1]
+    rounds = rounds_of(obs)
+    ans = ctx.driver.batch([r for o in rounds for r in requests_for(case, o)])
+    return [(o, ans[3 * i], ans[3 * i + 1]) for i, o in enumerate(rounds)]
+
+
+def failing_round(rounds, clause):
+    """the observation of the first round the Lean judge finds `clause` broken in (None: in no round)"""
+    for o, _m, j in rounds:
+        if clause in j.get('failed', []):
+            return o
+    return None
 
 
 def shrink(ctx, case, clause):
+    """-> smaller case, observation of its failing round"""
     def fails(items):
         c = rebuild(case, items)
         if not c['mods']:
             return False
-        _o, _m, j = judge_case(ctx, c)
-        return clause in j.get('failed', [])
+        return failing_round(judge_case(ctx, c), clause) is not None
     try:
         small = ddmin(features(case), fails, max_tests=100)
         c = rebuild(case, small)
-        _o, _m, j = judge_case(ctx, c)
-        if clause in j.get('failed', []):
-            return c
+        o = failing_round(judge_case(ctx, c), clause)
+        if o is not None:
+            return c, o
     except Exception:
         pass
-    return case
+    return case, None
 
 
 def signature(case, clause, obs):
@@ -906,6 +1007,8 @@ def signature(case, clause, obs):
         tag = 'unexported'
     else:
         tag = 'plain'
+    if obs.get('round'):
+        tag += ':after-restart'
     return 'C15:%s:%s' % (clause, tag)
 
 
@@ -930,6 +1033,11 @@ META = {
                   'startup_sequence_complete, no_write_after_first_poll, comm_failure_writes_made_up, '
                   'unrepaired_prologue_skips_writes, repair_changes_only_broken_off_rounds; rejected_parameter_reported (a '
                   'configured value that is not of the datatype / a missing required value makes the node report an error).  '
+                  'Restart (further rounds of Server.run on the same Server object): restart_same_configuration (FULL for nodes '
+                  'without Pinatas: a round hands srv.module_cfg to the next one exactly as it was loaded), hence '
+                  'restart_round_like_first (the life of round k is the first life: every whole-run theorem holds for every '
+                  'round against the loaded configuration), restart_start_values_kept; restart_rounds_statement (nodes with '
+                  'Pinatas, whose products are entries of module_cfg from round 2 on) is NOT proved (one checked instance).  '
                   'NOT proved, kept as statements: init_order_once_statement (missing: a clean configuration produces no error; '
                   'existence of Pinata products and automatic communicators), bad_attachment_reported first half, shutdown_order '
                   'against the declared attachments, writes_before_first_poll_statement without the hypothesis StaticPinatas; for '
@@ -942,7 +1050,10 @@ META = {
                   'multievent.py is re-executed from source with the scheduler\'s threading/time; the instrumented classes log '
                   'before calling super(); injected faults are raised by the instrumented write_/initialReads/read_ methods '
                   '(a communication failure is logged as part of the observation); the instrumented write_<p> records the value '
-                  'it is handed (after the conversion by the datatype in the generated wrapper).',
+                  'it is handed (after the conversion by the datatype in the generated wrapper); the state of an attached module '
+                  '(earlyInitDone, initModuleDone, _isinitialized) is read by the instrumented hook of its user at the moment of '
+                  'the access; a restart is a further call of Server._processCfg / shutdown_modules on the same Server stub and '
+                  'the same module_cfg objects.',
     'trusted': [
         'vlib.sched: gated real threads + virtual clock reproduce an admissible interleaving of the real threads',
         'the instrumented module classes (log, then super(), then the injected fault) do not change the lifecycle',
@@ -958,13 +1069,17 @@ META = {
         'is observed for it (it keeps the module in a poll thread: modelled and compared)',
         'the poll loop after the first polls (only the late writeInitParams and the first poll of each module in the main loop '
         'after a broken-off start-up sequence are modelled); reconnect callbacks',
-        'Dispatcher, interfaces, daemonising, signal handling, restart',
+        'Dispatcher, interfaces, daemonising, signal handling; of Server.run only the sequence _processCfg ... '
+        'shutdown_modules per round (restart_hook, systemd notifications, closing of the interfaces are not run)',
     ],
     'assumptions': ['Pinatas are declared statically and have no attachments of their own (hypothesis StaticPinatas of '
                     'writes_before_first_poll / start_values_handed_over / rejected_parameter_reported)',
                     'module names are distinct from the names of automatically created communicators; module names and parameter '
                     'names are dictionary keys (Nodup hypotheses)',
-                    'exceptions raised by drivers are Exception subclasses (no BaseException)'],
+                    'exceptions raised by drivers are Exception subclasses (no BaseException)',
+                    'restart: a round leaves the loaded descriptions (module_cfg entries, their parameter dictionaries) unchanged - '
+                    'the modelling assumption behind restartCfg; not a theorem about the code, checked on every restarted case by '
+                    'predicting and judging every round on its own'],
 }
 
 
@@ -986,6 +1101,9 @@ def run(ctx):
             for edges in all_graphs(n):
                 for v in (['plain', 'touchy', 'fail', 'missing', 'hio', 'pin', 'slow', 'wfault', 'sfault'] if n > 1 else VARIANTS):
                     yield f'n{n}', build_case(rng, n, edges, v)
+        for k in range(ctx.budget(1, 4)):           # restart: two or three rounds on the same Server object
+            for c in restart_cases(rng):
+                yield 'restart', c
         for k in range(ctx.budget(1, 4)):           # every declaration x configuration of a parameter (_handle_writes)
             for c in param_cases(rng):
                 yield 'params', c
@@ -1018,13 +1136,18 @@ def run(ctx):
             res.notes.append(f'time budget reached after {len(metas)} cases (last kind: {kind})')
             break
         policy = None
+        if kind not in ('corpus', 'restart') and rng.random() < 0.06:
+            case['rounds'] = 2              # any case of any stream may be a node that is restarted
+        if kind != 'corpus' and rng.random() < 0.1:
+            case['share'] = True            # equal parameter dictionaries of the configuration are one Param object
         if case.pop('_random_sched', False):
             policy = vsched.RandomPolicy(random.Random(rng.random()), 0.3)
         obs, raw = observe(case, policy)
         if policy is not None:
             case['sched'] = raw['choices']
-        reqs += requests_for(case, obs)
-        metas.append((kind, case, obs))
+        for o in rounds_of(obs):        # a restarted node: every round is predicted and judged on its own
+            reqs += requests_for(case, o)
+            metas.append((kind, case, o))
     # systematic schedules (at most 2 preemptions) of "main thread registering start triggers" x "poll threads reporting
     # their first round": the MultiEvent protocol (lock / event.set / event.clear are yield points of the scheduler)
     scenarios = [
@@ -1062,6 +1185,7 @@ def run(ctx):
         specs = case['mods'] + case.get('dyn', [])
         natt = sum(1 for sp in specs for a in sp['atts'] if a[1])
         res.count('kind.' + kind)
+        res.count('round.%d' % obs['round'])
         res.count('outcome.' + ('crash' if obs['crash'] else 'errors' if obs['errors'] else 'up'))
         res.count('cfg.' + ('clean' if judge['clean'] else 'bad-attachment' if judge['bad'] else 'other-defect'))
         res.count('attachments.%s' % (natt if natt < 4 else '4+'))
@@ -1111,31 +1235,41 @@ def run(ctx):
                                                             f'log={[" ".join(e) for e in obs["log"]]} errors={obs["errors"]}',
                                        'case': case, 'detail': {'clause': clause, 'original': case}})
                 continue
-            small = shrink(ctx, case, clause)
-            o2, _ = observe(small)
+            small, o2 = shrink(ctx, case, clause)
+            if o2 is None:
+                small, o2 = case, obs
             seen_sigs.add(signature(small, clause, o2))
+            rnd = f' (round {o2["round"] + 1} of the same Server object: after a restart)' if o2['round'] else ''
+            if small.get('share'):
+                rnd += ' (equal parameter dictionaries of the configuration are one Param object)'
             res.violations.append({'sig': signature(small, clause, o2),
-                                   'what': f'{clause} broken: cfg={json.dumps(wire_cfg(small))} log={[" ".join(e) for e in o2["log"]]} '
-                                           f'errors={o2["errors"]}',
+                                   'what': f'{clause} broken{rnd}: cfg={json.dumps(wire_cfg(small))} '
+                                           f'log={[" ".join(e) for e in o2["log"]]} errors={o2["errors"]}'
+                                           + (f' unready={o2["unready"]}' if o2['unready'] else ''),
                                    'case': small, 'detail': {'clause': clause, 'original': case}})
     res.notes.append('O02 (observation): HasIO.ioDict is a class-level dictionary shared by every node of the process; the harness '
-                     'clears it before every case')
+                     'clears it before every case (not between the rounds of a restarted node: since 8136d1a a uri registered by an '
+                     'earlier node is created again on the node that does not have the communicator)')
     return res
 
 
 def replay(ctx, rp):
     case = rp['case']
-    obs, _raw = observe(case)
-    a = ctx.driver.batch(requests_for(case, obs))
-    print('cfg    :', json.dumps(wire_cfg(case)))
-    print('impl   :', ' '.join('.'.join(e) for e in obs['log']))
-    print('errors :', obs['errors'], ' modules:', obs['modules'])
-    print('model  :', ' '.join('.'.join(e) for e in canon_log(a[0].get('log', []))), a[0].get('errors'))
-    print('written:', obs['written'], ' model:', a[0].get('written'))
-    print('judge  :', a[1])
-    print('multievent trace followed by the model:', a[2].get('stuck') is None, a[2])
     clause = (rp.get('detail') or {}).get('clause')
-    failed = a[1].get('failed', ['driver_error'])
-    if obs['crash'] or obs['thread_errors']:
-        return 1
-    return 1 if (clause in failed if clause else failed) else 0
+    bad = False
+    print('cfg    :', json.dumps(wire_cfg(case)), ' rounds:', case.get('rounds') or 1, ' shared Param objects:', bool(case.get('share')))
+    for obs, model, judge in judge_case(ctx, case):
+        follow = ctx.driver.batch(requests_for(case, obs)[2:])[0]
+        print('--- round', obs['round'] + 1)
+        print('impl   :', ' '.join('.'.join(e) for e in obs['log']))
+        print('errors :', obs['errors'], ' modules:', obs['modules'], ' unready:', obs['unready'])
+        print('model  :', ' '.join('.'.join(e) for e in canon_log(model.get('log', []))), model.get('errors'))
+        print('written:', obs['written'], ' model:', model.get('written'))
+        print('judge  :', judge)
+        print('multievent trace followed by the model:', follow.get('stuck') is None, follow)
+        failed = judge.get('failed', ['driver_error'])
+        if obs['crash'] or obs['thread_errors']:
+            bad = True
+        if clause in failed if clause else failed:
+            bad = True
+    return 1 if bad else 0
